@@ -25,8 +25,10 @@ def map_and_tasks(ctx, prefix, fi, table, ids_len, offsets_table, map_name, task
     map entry = box ids of the file (sorted by the file's offsets when the worker scans sequentially)"""
     site = fi.site
     pls = [p for p in pools.perfile_loops(fi) if p.table == table]
-    ctx.check(len(pls) == 1, f"{prefix}.P5b", site,
-              f"one per-file loop over np.unique({table}) (each binary file exactly once)",
+    # no per-file loop at all (tasks built per box / per something else) is a violation; several loops over the same
+    # unique sequence (map and tasks built separately) is a form this rule does not follow: undecided
+    ctx.decide(len(pls) == 1, len(pls) == 0, f"{prefix}.P5b", site,
+               f"one per-file loop over np.unique({table}) (each binary file exactly once)",
               f"{len(pls)} per-file loops over np.unique({table}); other per-file loops: "
               f"{[p.table for p in pools.perfile_loops(fi)]}", where=loc(fi, fi.node))
     if len(pls) != 1:
